@@ -3,11 +3,11 @@
 # The regression round of round.sh, run on N scratch copies of /repo and /verif in parallel (under /tmp/rg<i>),
 # so that /repo itself is never touched. Each mutant is applied to a copy, the quick check of its own property
 # is run there, and the copy is restored. One line per mutant: name, exit code, kind, first VIOLATION line.
-SRC=$(readlink -f $1); OUT=$(readlink -f $2); N=${3:-4}
+SRC=$(readlink -f $1); OUT=$(readlink -f $2); N=${3:-4}; BASE=${RG_BASE:-/tmp/rg}
 : > $OUT
-ls -d $SRC/C??-? | sort > /tmp/rg_list.txt
+ls -d $SRC/C??-? | sort > ${BASE}_list.txt
 for i in $(seq 1 $N); do
-  S=/tmp/rg$i
+  S=$BASE$i
   rm -rf $S; mkdir -p $S
   git clone -q /repo $S/repo && git -C $S/repo checkout -q $(git -C /repo rev-parse HEAD)
   rsync -a --exclude work --exclude .git /verif/ $S/verif/
@@ -19,9 +19,9 @@ for i in $(seq 1 $N); do
   (cd $S/verif && python3 check.py C08 --tier quick | grep -q "mismatches 0, oracle ok=[0-9]* fail=0") || { echo "clean-tree check failed in $S" >&2; exit 3; }
 done
 for i in $(seq 1 $N); do
-  S=/tmp/rg$i
+  S=$BASE$i
   (
-    awk -v n=$N -v i=$i 'NR % n == i % n' /tmp/rg_list.txt | while read d; do
+    awk -v n=$N -v i=$i 'NR % n == i % n' ${BASE}_list.txt | while read d; do
       m=$(basename $d); p=${m:0:3}
       git -C $S/repo apply $d/patch.diff || { echo -e "$m\tapply-failed" >> $OUT; continue; }
       o=$(cd $S/verif && python3 check.py $p --tier quick 2>&1); rc=$?
@@ -35,4 +35,4 @@ done
 wait
 sort -o $OUT $OUT
 echo done >> $OUT
-for i in $(seq 1 $N); do rm -rf /tmp/rg$i; done
+for i in $(seq 1 $N); do rm -rf $BASE$i; done
